@@ -1,6 +1,7 @@
 from typing import Any
 from abc import abstractmethod, ABCMeta
 import asyncio
+import concurrent.futures
 import logging
 import threading
 
@@ -104,7 +105,12 @@ class BaseRunner(metaclass=ABCMeta):
             return
         # the loop exists independently of all runners, we can use it to shut down
         closed = asyncio.run_coroutine_threadsafe(self.aclose(), self.asyncio_loop)
-        closed.result()
+        try:
+            closed.result()
+        except concurrent.futures.CancelledError:
+            # the event loop shut down (after a failure or another stop) before this
+            # request was served: the runner is being closed by the runtime itself
+            self._logger.debug("runner already shutting down: %s", self)
 
 
 class OrphanedReturn(Exception):
